@@ -148,10 +148,12 @@ class ToImageStack(Transform[Tree, npt.NDArray[np.uint8]]):
 
         def leave(n: Tree.Node, children: list[Tree.Node]) -> Tree.Node:
             for c in children:
-                if np.array_equal(n.xyz(), c.xyz()):
-                    # a round cone of zero length is a ball; `RoundCone`
-                    # degenerates (nothing is inside it)
-                    sdf = Sphere(_tp3f(n.xyz()), max(n.r, c.r)).into()
+                if np.linalg.norm(n.xyz() - c.xyz()) <= abs(n.r - c.r):
+                    # one end ball contains the other (in particular a
+                    # round cone of zero length): the round cone is the
+                    # larger ball; `RoundCone` degenerates
+                    big = n if n.r >= c.r else c
+                    sdf = Sphere(_tp3f(big.xyz()), big.r).into()
                 else:
                     sdf = RoundCone(_tp3f(n.xyz()), _tp3f(c.xyz()), n.r, c.r).into()
                 scene.add_object(SDFObject(sdf, material).into())
